@@ -6,6 +6,7 @@ import (
 	"errors"
 	"fmt"
 	"io"
+	"math"
 	"unsafe"
 
 	"slices"
@@ -74,7 +75,7 @@ func branchesReposDecode(b []byte) ([]BranchRepos, error) {
 		return nil, fmt.Errorf("unsupported BranchRepos encoding version %d", v)
 	}
 
-	l := r.uvarint() // Length
+	l := r.count(2) // Length. An entry takes at least 2 bytes.
 	brs := make([]BranchRepos, l)
 
 	for i := range l {
@@ -166,8 +167,8 @@ func stringSetDecode(b []byte) (map[string]struct{}, error) {
 		return nil, fmt.Errorf("unsupported stringSet encoding version %d", v)
 	}
 
-	// Length
-	l := r.uvarint()
+	// Length. An entry takes at least 1 byte.
+	l := r.count(1)
 	set := make(map[string]struct{}, l)
 
 	for range l {
@@ -184,13 +185,29 @@ type binaryReader struct {
 
 func (b *binaryReader) uvarint() int {
 	x, n := binary.Uvarint(b.b)
-	if n < 0 {
+	// n == 0 means the input ends inside the varint, n < 0 that it overflows
+	// 64 bits. A value that does not fit an int is malformed as well.
+	if n <= 0 || x > math.MaxInt {
 		b.b = nil
 		b.err = errors.New("malformed RepoBranches")
 		return 0
 	}
 	b.b = b.b[n:]
 	return int(x)
+}
+
+// count reads the number of elements that follow. Every element takes at
+// least minSize bytes, so a count larger than what the remaining input can
+// hold is malformed. This bounds what we allocate and loop over by the size
+// of the input.
+func (b *binaryReader) count(minSize int) int {
+	n := b.uvarint()
+	if n > len(b.b)/minSize {
+		b.b = nil
+		b.err = errors.New("malformed RepoBranches")
+		return 0
+	}
+	return n
 }
 
 func (b *binaryReader) str() string {
@@ -213,7 +230,9 @@ func (b *binaryReader) bitmap() *roaring.Bitmap {
 		return nil
 	}
 	r := roaring.New()
-	_, b.err = r.FromBuffer(b.b[:l])
+	if _, err := r.FromBuffer(b.b[:l]); err != nil && b.err == nil {
+		b.err = err
+	}
 	b.b = b.b[l:]
 	return r
 }
